@@ -541,3 +541,124 @@ for _n, (_b, _e) in TRUNC_TIME_FORMS.items():
         for _z in ("none", "Z", "+hh", "-hhmm"):
             _tt.append(trunc_time_case(_n, _style, _z))
 _REG["parsers:TimePointParser.parse"].cases = list(_REG["parsers:TimePointParser.parse"].cases) + _tt
+
+
+# ---------------------------------------------------------------- recurrence texts (C14)
+def mk_rec_parser(E, st):
+    from .durtext_t4 import mk_parser
+    ci = E.db.class_by_name["TimeRecurrenceParser"]
+    r = st.alloc("obj", ci, fresh=False)
+    st.obj(r).slots.update({"timepoint_parser": mk_text_parser(E, st, x=2, assumed=(0, 0)),
+                            "duration_parser": mk_parser(E, st)})
+    return r
+
+
+def _tp_pieces(E, st, tag, zone):
+    """CCYY-MM-DDThh:mm:ss<zone> with digit fields named <tag>.<field>"""
+    f = lambda n, w: fld(E, st, tag + "." + n, w)
+    ps = [f("century", 2), f("year_of_century", 2), "-", f("month_of_year", 2), "-",
+          f("day_of_month", 2), "T", f("hour_of_day", 2), ":", f("minute_of_hour", 2), ":",
+          f("second_of_minute", 2)]
+    if zone == "Z":
+        ps.append("Z")
+    else:
+        ps += ["+", f("time_zone_hour", 2), ":", f("time_zone_minute", 2)]
+    return ps
+
+
+def _dur_pieces(E, st):
+    from pyvc.values import IntStr
+    out = ["P"]
+    for nm, letter in (("days", "D"), ("hours", "H")):
+        v = z3.Int("p:d." + nm)
+        st.assume(v >= 1)
+        if nm == "hours":
+            out.append("T")
+        out += [IntStr(v), letter]
+    return out
+
+
+def _tp_valid(tag, zone):
+    y = "(100 * fld('%s.century') + fld('%s.year_of_century'))" % (tag, tag)
+    s = ("valid_cal(%s, fld('%s.month_of_year'), fld('%s.day_of_month'))"
+         " and time_fields_ok(fld('%s.hour_of_day'), fld('%s.minute_of_hour'),"
+         " fld('%s.second_of_minute'))" % (y, tag, tag, tag, tag, tag))
+    if zone != "Z":
+        s += " and zone_fields_ok(fld('%s.time_zone_hour'), fld('%s.time_zone_minute'))" % (tag, tag)
+    return s
+
+
+def _tp_is(obj, tag, zone):
+    y = "(100 * fld('%s.century') + fld('%s.year_of_century'))" % (tag, tag)
+    s = ("%s._year == %s and %s._month_of_year == fld('%s.month_of_year')"
+         " and %s._day_of_month == fld('%s.day_of_month')"
+         " and %s._hour_of_day == fld('%s.hour_of_day')"
+         " and %s._minute_of_hour == fld('%s.minute_of_hour')"
+         " and %s._second_of_minute == fld('%s.second_of_minute')" % (
+             obj, y, obj, tag, obj, tag, obj, tag, obj, tag, obj, tag))
+    if zone == "Z":
+        s += " and %s._time_zone._hours == 0 and %s._time_zone._minutes == 0" % (obj, obj)
+    else:
+        s += (" and %s._time_zone._hours == fld('%s.time_zone_hour')"
+              " and %s._time_zone._minutes == fld('%s.time_zone_minute')" % (obj, tag, obj, tag))
+    return s
+
+
+def _tp_inst(tag, zone):
+    y = "(100 * fld('%s.century') + fld('%s.year_of_century'))" % (tag, tag)
+    tz = "0" if zone == "Z" else ("(3600 * fld('%s.time_zone_hour') + 60 * fld('%s.time_zone_minute'))"
+                                  % (tag, tag))
+    return ("(86400 * cal_abs(%s, fld('%s.month_of_year'), fld('%s.day_of_month'))"
+            " + 3600 * fld('%s.hour_of_day') + 60 * fld('%s.minute_of_hour')"
+            " + fld('%s.second_of_minute') - %s)" % (y, tag, tag, tag, tag, tag, tz))
+
+
+def rec_text_case(notation, reps, zone):
+    """notation 1: R[n]/start/end, 3: R[n]/start/interval, 4: R[n]/interval/end"""
+    def build(E, st):
+        from pyvc.values import IntStr
+        ps = ["R"]
+        if reps:
+            n = z3.Int("p:reps")
+            st.assume(n >= 2)
+            ps.append(IntStr(n))
+        ps.append("/")
+        if notation == 1:
+            ps += _tp_pieces(E, st, "a", zone) + ["/"] + _tp_pieces(E, st, "b", zone)
+        elif notation == 3:
+            ps += _tp_pieces(E, st, "a", zone) + ["/"] + _dur_pieces(E, st)
+        else:
+            ps += _dur_pieces(E, st) + ["/"] + _tp_pieces(E, st, "b", zone)
+        return {"self": mk_rec_parser(E, st), "expression": Text(ps).simplest()}
+    req, ens = [], ["classname(result) == 'TimeRecurrence'",
+                    ("result._repetitions == fld('reps')" if reps
+                     else "result._repetitions is None")]
+    if notation in (1, 3):
+        req.append(_tp_valid("a", zone))
+        ens.append(_tp_is("result._start_point", "a", zone))
+    if notation == 4:
+        req.append(_tp_valid("b", zone))
+        ens.append(_tp_is("result._end_point", "b", zone) if not reps else "True")
+    if notation == 1:
+        req.append(_tp_valid("b", zone))
+        # the second point lies after the start (equal points collapse to one repetition,
+        # an earlier one is refused: C12's constructor cases)
+        req.append("%s > %s" % (_tp_inst("b", zone), _tp_inst("a", zone)))
+        ens.append(_tp_is("result._second_point", "b", zone))
+    if notation in (3, 4):
+        ens.append("result._duration._days == fld('d.days') and result._duration._hours"
+                   " == fld('d.hours') and result._duration._minutes == 0"
+                   " and result._duration._seconds == 0 and result._duration._years == 0"
+                   " and result._duration._months == 0")
+    ens.append("result._format_number == %d" % notation)
+    return Case("fmt%d/%s/%s" % (notation, "n" if reps else "inf", zone), build,
+                requires=req, ensures=ens)
+
+
+contract("parsers:TimeRecurrenceParser.parse", use_at_calls=False, opaque=["dby"],
+         check_frames=False,
+         cases=[rec_text_case(nt, rp, zn) for nt in (1, 3, 4) for rp in (True, False)
+                for zn in ("Z", "+hh:mm")],
+         note="the three recurrence notations on symbolic texts: repetitions, start / second "
+              "/ end point fields and interval components exactly as spelled")
+_REG["parsers:TimeRecurrenceParser.parse"].modes = ["gregorian"]
